@@ -10,13 +10,13 @@ ENV = "GOFLAGS=-mod=mod GOPROXY=off"
 # property -> (level category, technique, level text, level note, design ref)
 CHECKS = {
     "C17": ("exploration", "runtime monitor: reference oracle over PRNG layouts through the real limiter entry points; boundary range pairs exhaustively",
-            "Every generated layout is pushed through the real GetCertificateBuildParamsInternal / AdaptCertificate / Range / Gap and the result is compared with an independent oracle (largest permitted block by brute force, kept events by filtering, gap by big-integer arithmetic). Held on the executions explored, boundary endpoint pairs exhaustively.",
+            "Every generated layout is pushed through the real GetCertificateBuildParamsInternal / AdaptCertificate / Range / Gap and the result is compared with an independent oracle (largest permitted block by brute force, kept events by filtering, gap by big-integer arithmetic). A refusal of the last-block limiter is accepted only for its documented reasons; a third of the size-limit cases ask the same flow object a second time after the events changed. Held on the executions explored, boundary endpoint pairs exhaustively.",
             "EstimatedSize is taken as the size notion (its monotonicity is checked); fake bridge querier/storage only feed data.", "DESIGN.md §4 C17"),
     "C18": ("exploration", "runtime monitor: integer reference vs Publish calls of the real notifier; small parameters exhaustively with prefix closure",
-            "The real EpochNotifierPerBlock loop is run on every subset of the next blocks for all small (N,start,P) and on random large parameters; the sequence of Publish calls observed by a synchronous subscriber must equal an integer (float-free) reference, for every prefix of every sequence (which decides at which block each event was published).",
+            "The real EpochNotifierPerBlock loop is run on every subset of the next blocks for all small (N,start,P) and on random large parameters; the sequence of Publish calls observed by a synchronous subscriber must equal an integer (float-free) reference, for every prefix of every sequence (which decides at which block each event was published). A second plane delivers through the real GenericSubscriberImpl to a subscriber that reads only after all blocks: every expected epoch must arrive exactly once (order not judged).",
             "Blocks strictly above StartingEpochBlock; fake block notifier feeds an unbuffered channel.", "DESIGN.md §4 C18"),
     "C19": ("exploration", "runtime monitor: bit-layout reference vs every consumer boundary (struct, commitments, protobuf request, prover request, optimistic commitment)",
-            "Boundary triples exhaustively and millions of PRNG triples: Generate/Decode round trip against the contract bit layout, and the same value observed at the certificate struct, both commitment encodings, the protobuf SubmitCertificateRequest captured behind the real gRPC client, the prover request captured behind the real aggchain-proof client and the optimistic commitment input.",
+            "Boundary triples exhaustively and millions of PRNG triples: Generate/Decode round trip against the contract bit layout, and the same value observed at the certificate struct, both commitment encodings, the protobuf SubmitCertificateRequest captured behind the real gRPC client, the prover request captured behind the real aggchain-proof client and the optimistic commitment input. Probe outside the canonical domain (mainnet bit with left-over rollup bits): wire message, prover request and commitment encoding must agree with each other.",
             "Canonical global indexes only; gRPC services are capturing fakes behind the real clients (verif-tag constructors).", "DESIGN.md §4 C19"),
 }
 
@@ -37,7 +37,7 @@ CHECKS.update({
 
 CHECKS.update({
     "C01": ("exploration", "runtime monitor: real bridge bytecode in an in-process EVM as oracle (root after every deposit, getLeafValue), reference frontier validated against it, synthetic pre-states for high indices",
-            "Deposit sequences are executed by the real PolygonZkEVMBridgeV2 bytecode; its BridgeEvent logs are fed to the real processor under 6 block partitions x restart schedules and GetExitRootByIndex / GetRootByLER / GetBridges are compared with the contract's root after each deposit and its leaf values. Longer sequences and indices around every 2^k (k=7..31, via a pre-state of N constant leaves computed by the reference) are checked against the reference frontier, which the same run compares with the EVM on every low-index case.",
+            "Deposit sequences are executed by the real PolygonZkEVMBridgeV2 bytecode; its BridgeEvent logs are fed to the real processor under 6 block partitions x restart schedules and GetExitRootByIndex / GetRootByLER / GetBridges are compared with the contract's root after each deposit and its leaf values. Longer sequences and indices around every 2^k (k=7..31, via a pre-state of N constant leaves computed by the reference) are checked against the reference frontier, which the same run compares with the EVM on every low-index case. In a third of the restart-free runs blocks fail once at a random storage statement (fault-injecting driver) and are processed again.",
             "High indices are reached through synthetic pre-states (root row + the 32 path nodes), not by 2^k real appends; metadata comes from bridgeMessage.", "DESIGN.md §4 C01"),
     "C08": ("exploration", "runtime monitor: bottom-up recomputation with reference leaves for every (recorded root, present position) pair; sample re-verified by the L1 contract's verifyMerkleProof bytecode",
             "Stores built from random histories, also after reorgs with continuation forks, restarts and blocks that failed once (injected storage fault, incl. failing commit) and were retried: for every recorded root version and every position present under it the served proof must hash, with the reference leaf, to exactly that root (exit tree, L1 info tree, rollup exit tree), and GetLocalExitRoot must return the value last written as of that root. A sample of proofs is also verified by the real GlobalExitRootV2.verifyMerkleProof bytecode.",
@@ -52,7 +52,7 @@ CHECKS.update({
 
 CHECKS.update({
     "C06": ("exploration", "runtime monitor: convergence oracle (real store == reference of the final canonical chain) over the real detector + syncer on a forking chain simulator; rewind-depth / no-spurious-rewind monitors on a recording store",
-            "The real reorg detector (1 ms) and the real L1 info tree syncer (optionally with a second syncer sharing the detector) run over a chain simulator whose schedule forks above the finalized block at random RPC calls, stops / restarts the node at chosen RPC call indices (crash-point sweep) and forks while it is down; once the chain stops changing the real store must equal the reference of the final canonical chain and the last processed block must be on it. Behind a recording store, a fork that replaces processed blocks must produce a rewind that leaves nothing at or above the fork point recorded, and forks strictly above everything ever served to the node (or no fork) must produce no rewind. A labelled campaign starts the detector concurrently with the syncer's constructor (cmd/run.go's order) on detector databases with and without thousands of tracked rows. Two genuine defects (subscribe before detector start; Start/Subscribe lock-order deadlock) found and repaired.",
+            "The real reorg detector (1 ms) and the real L1 info tree syncer (optionally with a second syncer sharing the detector) run over a chain simulator whose schedule forks above the finalized block at random RPC calls, stops / restarts the node at chosen RPC call indices (crash-point sweep) and forks while it is down; once the chain stops changing the real store must equal the reference of the final canonical chain and the last processed block must be on it. Behind a recording store, a fork that replaces processed blocks must produce a rewind that leaves nothing at or above the fork point recorded, and forks strictly above everything ever served to the node (or no fork) must produce no rewind. Hand-shake windows that RPC-aligned crash points cannot hit are driven through a per-incarnation view of the recording store: death inside processor.Reorg, death right after ProcessBlock returned, a store that takes 6 s while a fork is reported; each followed by restart / further forks and the convergence oracle. A labelled campaign starts the detector concurrently with the syncer's constructor (cmd/run.go's order) on detector databases with and without thousands of tracked rows. Two genuine defects (subscribe before detector start; Start/Subscribe lock-order deadlock) found and repaired.",
             "Convergence is bounded progress (re-evaluated for up to 40 s after the chain stopped changing); finalized blocks are never reorged; the window between ReorgProcessed and removeTrackedBlockRange is not driven.", "DESIGN.md §4 C06"),
     "C16": ("exploration", "runtime monitor: per-X query oracle against the injected-and-not-removed set of the canonical L2 chain, real lastgersync (PP and FEP) over the chain simulator",
             "Real lastgersync.New with the real reorg detector in PP and FEP mode: GER insertions / removals / re-insertions (<= 1 per block), the tip advancing by up to 25 blocks between polls, restarts at random RPC call indices, forks (incl. a final fork that re-injects the last root), a lagging L1 info tree syncer and transient RPC errors; at quiescence GetFirstGERAfterL1InfoTreeIndex(X) is judged for every X: a returned root must be injected, not removed, with index >= X, and not-found is only allowed when no such root exists. Extra campaigns: forks that replace already served event-free blocks by blocks with events (PP), the chain growing between the FEP downloader's view calls, a final fork that re-injects the last root. Three genuine defects (PP downloader skipped blocks; PP downloader missed reorgs of event-free blocks; FEP downloader recorded state read at 'latest' under an older block) found and repaired; the GER-removal delete that a reorg does not undo is a known finding.",
@@ -67,13 +67,13 @@ CHECKS.update({
 
 CHECKS.update({
     "C12": ("exploration", "runtime monitor: real BridgeService handlers (gin test context) over the four real stores; reference proof verifier and covering-index oracle from a joint L1/L2 reference history",
-            "Joint L1/L2 histories are loaded into the real L1/L2 bridge stores, L1 info store and injected-GER store; for every recorded bridge and every L1 info index whose exit roots cover it, /claim-proof must return proofs that hash the bridge leaf to the mainnet exit root (or to the local exit root and that to the rollup exit root) of that leaf; /l1-info-tree-index must never return a non-covering index (any refusal is accepted and counted); /injected-l1-info-leaf must return an injected leaf with index >= the one asked.",
+            "Joint L1/L2 histories are loaded into the real L1/L2 bridge stores, L1 info store and injected-GER store; for every recorded bridge and every L1 info index whose exit roots cover it, /claim-proof must return proofs that hash the bridge leaf to the mainnet exit root (or to the local exit root and that to the rollup exit root) of that leaf; /l1-info-tree-index must never return a non-covering index (any refusal is accepted and counted); /injected-l1-info-leaf must return an injected leaf with index >= the one asked. In every second history an L1 reorg follows (both L1 stores rewound, the chain continues differently) and every proof / index look-up is repeated on the same service object.",
             "The stores are filled at processor level (C05/C11 cover the download path); proofs are verified by the reference verifier that C08 cross-checks against the contract's verifyMerkleProof.", "DESIGN.md §4 C12"),
 })
 
 CHECKS.update({
     "C15": ("exploration", "runtime monitor: every InjectGER judged at the moment it happens against the reference L1 history and the sender's authoritative set; bounded-progress monitor in oracle ticks; real oracle loop + real L1 info store",
-            "The real aggoracle Start loop runs against a fake L1 client (finality answers from the schedule), the real L1 info store (fed at a scheduled pace: behind / level with / ahead of the finalized block, stalls and catch-ups) behind a recording wrapper, and a fake chain sender. Safety per injection: the root is the most recent reference root at or below a block that was an answer of the finality query and that the oracle queried in this tick, IsGERInjected(same) = false came immediately before, the L2 set does not have it. Progress (in ticks, error-free schedules): injections keep happening while finalized roots keep appearing, and the latest finalized root is on L2 within 8 ticks after everything stands still. One genuine defect (dead sticky target => starvation) found and repaired.",
+            "The real aggoracle Start loop runs against a fake L1 client (finality answers from the schedule), the real L1 info store (fed at a scheduled pace: behind / level with / ahead of the finalized block, stalls and catch-ups) behind a recording wrapper, and a fake chain sender. Safety per injection: the root is the most recent reference root at or below a block that was an answer of the finality query and that the oracle queried in this tick, IsGERInjected(same) = false came immediately before, the L2 set does not have it. Progress (in ticks, error-free schedules): injections keep happening while finalized roots keep appearing, and the latest finalized root is on L2 within 8 ticks after everything stands still. Schedule variants: L1 blocks with two info-tree updates, and a quiet end phase whose first injection attempt fails (a failed injection must be tried again). One genuine defect (dead sticky target => starvation) found and repaired.",
             "'Keeps injecting' is restated as bounded progress in ticks; with injected dependency errors only the final clause is judged (errors may delay, not suppress).", "DESIGN.md §4 C15"),
 })
 
@@ -89,10 +89,10 @@ CHECKS.update({
             "For every imported bridge exit of every certificate received by the model Agglayer: exit hash + proof reaches the mainnet exit root (or local exit root and from there the rollup exit root) of the enclosed L1 leaf, that leaf is the one the claim was made against, leaf + proof reaches the named L1 info root, all imported exits name the same root, l1_info_tree_leaf_count belongs to that root and the root is finalized on L1 (the reference L1 history knows finality).",
             "The reference verifier is the one C08 cross-checks against the L1 contract's verifyMerkleProof.", "DESIGN.md §4 C09"),
     "C10": ("exploration", "runtime monitor: commitment recomputed independently from the received certificate / from the protobuf message captured behind the real gRPC client / from the stored JSON, recording signer; single-field perturbation sweep",
-            "Certificates built, signed, submitted and stored by the real flows (PP and aggchain-prover flow with a recording signer) in walks with failed submissions and InError retries: the hash handed to the signer equals the commitment recomputed from what was sent, the signature recovers to the signer over it, the wire message of the real gRPC client and the node's stored copy carry every covered field unchanged. PRNG certificates (0-20 exits, 0-10 imported exits, both claim kinds, nil amounts, empty metadata): wire / JSON comparison and a single-field perturbation of every covered field must change the commitment / identity that covers it.",
+            "Certificates built, signed, submitted and stored by the real flows (PP and aggchain-prover flow with a recording signer) in walks with failed submissions and InError retries: the hash handed to the signer equals the commitment recomputed from what was sent, the signature recovers to the signer over it, the wire message of the real gRPC client and the node's stored copy carry every covered field unchanged. PRNG certificates (0-20 exits, 0-10 imported exits, both claim kinds, nil amounts, empty metadata): wire / JSON comparison and a single-field perturbation of every covered field must change the commitment / identity that covers it. One long-lived real gRPC client is used per walk / worker with injected failed submissions in between (what a client sends must not depend on its earlier calls); an eighth of the mainnet global indexes carry left-over rollup bits.",
             "Commitment formulas are re-implemented from the interop specification (PP: new LER + global indexes; FEP: + imported exit hashes, height, aggchain params).", "DESIGN.md §4 C10"),
     "C13": ("fault_enumeration", "runtime monitor: process-death points and database loss injected into the real AggSender against the model Agglayer, post-restart reconciliation oracle; statement-level fault enumeration on the real certificate storage through a wrapping database/sql driver",
-            "All sequences of depth 3 (quick) / 4 (thorough) over {L2 events, epoch, status, inError, settle, restart, death before submit / after the Agglayer recorded the certificate / at the next Agglayer call, database deleted} after three prefixes, PRNG walks (also: epoch tick with the k-th storage statement failing then restart, stale database copy, Agglayer forgets / re-identifies its last certificate) x retry x history x flow. After every restart without contradiction the node must not refuse and its last record must be the Agglayer's last certificate; the next certificate must pass the height / previous-root / first-block checks; constructed contradictions must be refused; never two rows per height; a failed write removes no record. Storage plane: every statement and the commit of every write transaction fails once (also by cancellation): failed => fingerprint unchanged, succeeded => complete new state. Two genuine defects found and repaired.",
+            "All sequences of depth 3 (quick) / 4 (thorough) over {L2 events, epoch, status, inError, settle, restart, death before submit / after the Agglayer recorded the certificate / at the next Agglayer call, database deleted} after three prefixes, PRNG walks (also: epoch tick with the k-th storage statement failing then restart, stale database copy, Agglayer forgets / re-identifies its last certificate) x retry x history x flow. After every restart without contradiction the node must not refuse and its last record must be the Agglayer's last certificate; the next certificate must pass the height / previous-root / first-block checks; constructed contradictions must be refused; never two rows per height; a failed write removes no record. Ticks during which the k-th storage statement of any kind (also plain reads) fails. Storage plane: every statement and the commit of every write transaction fails once (also by cancellation): failed => fingerprint unchanged, succeeded => complete new state. Two genuine defects found and repaired.",
             "Process death = abandoning the node's objects and rebuilding on the same files; start-up reconciliation gets 4 rounds of recovery queries.", "DESIGN.md §4 C13"),
 })
 
